@@ -374,9 +374,7 @@ func runC11(c *fw.Ctx, cs fw.Case) {
 			bud /= 8
 		}
 		depth := depthFor(n0, n1, bud, 6)
-		if seq := 0; seq == 0 {
-			depth = ttSafeDepth(h, depth)
-		}
+		depth = ttSafeDepth(h, depth)
 		inner, tname := newTable(ctx, r.Intn(7))
 		tt := &recTable{TranspositionTable: inner, every: 1 + r.Intn(40)}
 		s, _, _ := cfg.mk()
